@@ -499,8 +499,17 @@ def view_of(case, el):
 def finish(case):
     """complete a case (v, build, pre_errors) with its view"""
     case.setdefault("pre_errors", [])
-    el = build(case)
-    case["view"] = view_of(case, el)
+    try:
+        el = build(case)
+        case["view"] = view_of(case, el)
+    except Exception as e:
+        # building the subject runs library code (set(), an earlier validate() for the prior validation state): an
+        # exception escaping from the LIBRARY here must not crash the generator — the case is kept, run_case builds
+        # it again, the same exception escapes there and is accounted as the observation `unexpected-exception`
+        from harness.core import _raised_in_library
+        if type(e).__name__ == "CaseTimeout" or not _raised_in_library(e):
+            raise
+        case["view"] = {"_build_raised": type(e).__name__}
     return case
 
 
